@@ -365,6 +365,36 @@ def pair_rule(chk, setup):
                 vn = [norm.arg(d.value) for d in defs if not any(d is x for x in first_zero_branch)]
                 okt = vz == [PER + "[1]"] and vn == [PER + "[0]"]
                 why = "first period zero -> %s, otherwise -> %s" % (vz, vn)
+    if not okt and tmin_atom is not None and tmin_atom.startswith(PER + "["):
+        # T_min = periods[k] with a computed index k: k = int(periods[0] == 0), or a local that is 1 when periods[0] == 0 and 0 otherwise
+        for n in ast.walk(fi.node):
+            if isinstance(n, ast.Subscript) and norm.arg(n.value) == PER and norm.opaque(n) == tmin_atom:
+                k = n.slice
+                if isinstance(k, ast.Name):          # an index held in a local bound once stands for its definition
+                    one = [a for a in ast.walk(fi.node) if isinstance(a, ast.Assign) and len(a.targets) == 1 and isinstance(a.targets[0], ast.Name) and
+                           a.targets[0].id == k.id]
+                    if len(one) == 1:
+                        k = one[0].value
+                first_is_zero = lambda t: isinstance(t, ast.Compare) and len(t.ops) == 1 and isinstance(t.ops[0], ast.Eq) and (
+                    (norm.arg(t.left) == PER + "[0]" and norm.arg(t.comparators[0]) in ("0", "0.0")) or
+                    (norm.arg(t.comparators[0]) == PER + "[0]" and norm.arg(t.left) in ("0", "0.0")))
+                if isinstance(k, ast.Call) and ast.unparse(k.func) == "int" and len(k.args) == 1 and first_is_zero(k.args[0]):
+                    okt, why = True, "index int(%s)" % ast.unparse(k.args[0])
+                elif isinstance(k, ast.Name):
+                    kd = [a for a in ast.walk(fi.node) if isinstance(a, ast.Assign) and len(a.targets) == 1 and isinstance(a.targets[0], ast.Name) and
+                          a.targets[0].id == k.id]
+                    hosts = [h for h in ast.walk(fi.node) if isinstance(h, ast.If) and len(kd) == 2 and any(d is x for d in kd for x in h.body) and
+                             any(d is x for d in kd for x in h.orelse)]
+                    if len(hosts) == 1 and all(isinstance(d.value, ast.Constant) for d in kd):
+                        t = hosts[0].test
+                        neg = isinstance(t, ast.Compare) and len(t.ops) == 1 and isinstance(t.ops[0], ast.NotEq)
+                        tt = ast.Compare(left=t.left, ops=[ast.Eq()], comparators=t.comparators) if neg else t
+                        if first_is_zero(tt):
+                            zb = hosts[0].orelse if neg else hosts[0].body
+                            vz = [d.value.value for d in kd if any(d is x for x in zb)]
+                            vn = [d.value.value for d in kd if not any(d is x for x in zb)]
+                            okt, why = (vz == [1] and vn == [0]), "index %s = %s when the first period is zero, %s otherwise" % (k.id, vz, vn)
+                break
     chk.ob("R-PAIR", c + "[T_min]", "T_min is period [0], or [1] when the first period is 0", okt, derived=why,
            loc=fi.loc(defs[0]) if defs else fi.loc())
 
